@@ -1,6 +1,7 @@
 import RPVerif.Model.Cancel
 import RPVerif.Lemmas.Exec
 import RPVerif.Lemmas.Sched
+import RPVerif.Lemmas.Pool
 import RPVerif.Props.C07
 
 /-!
@@ -228,5 +229,52 @@ theorem C08_waitpool_cancel (wp : List (Int × List Req)) (uid : Nat) :
         exact ⟨x, hx, hxe, (mem_filter.mp hr).1⟩
       · simp only [hxe, if_false] at hr ⊢
         exact ⟨x, hx, rfl, hr⟩
+
+open RPVerif.Sched in
+/-- a cancel message takes the named task out of the wait pool: afterwards no pool holds an
+    entry with that uid (a uid waits under one priority only: the pools are keyed by the
+    priority of the task's own description) -/
+theorem C08_cancel_message_clears (wp : List (Int × List Req)) (uid : Nat)
+    (huniq : ∀ e1 ∈ wp, ∀ e2 ∈ wp, (∃ r ∈ e1.2, r.uid = uid) → (∃ r ∈ e2.2, r.uid = uid) → e1.1 = e2.1) :
+    ∀ e' ∈ (removeFromPools wp uid).1, ∀ r ∈ e'.2, r.uid ≠ uid := by
+  unfold removeFromPools
+  cases hf : wp.find? (fun e => e.2.any (fun r => r.uid = uid)) with
+  | none =>
+    simp only
+    intro e he r hr hu
+    have := List.find?_eq_none.mp hf e he
+    exact this (List.any_eq_true.mpr ⟨r, hr, by simpa using hu⟩)
+  | some e0 =>
+    simp only
+    intro e' he' r hr hu
+    obtain ⟨x, hx, rfl⟩ := mem_map.mp he'
+    have h0 : e0 ∈ wp := List.mem_of_find?_eq_some hf
+    have h0u : ∃ r ∈ e0.2, r.uid = uid := by
+      have := List.find?_some hf
+      obtain ⟨r0, hr0, hh⟩ := List.any_eq_true.mp this
+      exact ⟨r0, hr0, by simpa using hh⟩
+    by_cases hxe : x.1 = e0.1
+    · simp only [hxe, if_true] at hr
+      have := (mem_filter.mp hr).2
+      simp [hu] at this
+    · simp only [hxe, if_false] at hr
+      exact hxe (huniq x hx e0 h0 ⟨r, hr, hu⟩ h0u)
+
+open RPVerif.Sched in
+/-- a task whose uid is on the cancel list when the scheduler puts it into the wait pool
+    (the cancel request overtook it) is taken out again at once: it does not wait there to
+    be started when resources free up.  Together with `C08_cancel_message_clears`: whichever
+    of the CANCEL message and the task the scheduler sees first, the task does not stay. -/
+theorem C08_marked_task_does_not_wait (p : Int) (uid : Nat) (ts : List Req) (s : SchedSt) (evs : List Ev)
+    (hm : uid ∈ s.cancel) (hnd : (ts.map (·.uid)).Nodup)
+    (hp : ∀ r ∈ poolOf s.waitpool p, r.uid ≠ uid) :
+    ∀ r ∈ poolOf (parkTasks p s ts evs).1.waitpool p, r.uid ≠ uid :=
+  parkTasks_marked p uid ts s evs hm hnd hp
+
+open RPVerif.Sched in
+/-- premises are satisfiable and the conclusion is not vacuous: a marked task parked next to a bystander -/
+example : (parkTasks 0 { nodes := [], cancel := [7] } [{ uid := 7, ranks := 1, cpr := 1, gpr := 0, lfs := 0, mem := 0 },
+      { uid := 8, ranks := 1, cpr := 1, gpr := 0, lfs := 0, mem := 0 }] []).1.waitpool.map (fun e => (e.1, e.2.map (·.uid)))
+            = [(0, [8])] := by decide
 
 end RPVerif.C08
